@@ -33,8 +33,13 @@ func flattenJSON(v interface{}, path []string, out *[]jleaf) {
 			*out = append(*out, jleaf{append([]string{}, path...), "O", ""})
 			return
 		}
-		for k, c := range x {
-			flattenJSON(c, append(append([]string{}, path...), k), out)
+		ks := make([]string, 0, len(x))
+		for k := range x {
+			ks = append(ks, k)
+		}
+		sort.Strings(ks) // deterministic leaf order: the mutations below pick a leaf by index
+		for _, k := range ks {
+			flattenJSON(x[k], append(append([]string{}, path...), k), out)
 		}
 	case string:
 		*out = append(*out, jleaf{append([]string{}, path...), "S", x})
@@ -57,8 +62,13 @@ func msgLeaves(m *Msg) ([]jleaf, error) {
 	delete(top, "id")
 	delete(top, "validateOptions")
 	var out []jleaf
-	for k, c := range top {
-		flattenJSON(c, []string{k}, &out)
+	tks := make([]string, 0, len(top))
+	for k := range top {
+		tks = append(tks, k)
+	}
+	sort.Strings(tks)
+	for _, k := range tks {
+		flattenJSON(top[k], []string{k}, &out)
 	}
 	return out, nil
 }
@@ -441,6 +451,32 @@ func init() {
 				}
 			}
 			o.Case("prop:json-client-agree", res, "server-to-client-elementwise", tn)
+			// and the tag as a whole is emitted under the JSON name of the client member of the same Go name (names
+			// compared without case; the wrapper members of the recorded finding lose the values, so the keys decide)
+			res = "same"
+			for i := 0; i < cv.NumField(); i++ {
+				if !strings.EqualFold(cv.Type().Field(i).Name, tn) {
+					continue
+				}
+				want := strings.Split(cv.Type().Field(i).Tag.Get("json"), ",")[0]
+				var emitted []string
+				for k, raw := range top {
+					if string(raw) != "null" && k != "id" {
+						emitted = append(emitted, k)
+					}
+				}
+				sort.Strings(emitted)
+				found := false
+				for _, k := range emitted {
+					if strings.EqualFold(k, want) {
+						found = true
+					}
+				}
+				if !found && len(emitted) > 0 {
+					res = fmt.Sprintf("differ:the server emits %s as %s, the client model reads it from %s", tn, strings.Join(emitted, " "), want)
+				}
+			}
+			o.Case("prop:json-client-agree", res, "server-to-client-tag", tn)
 		}
 		// client -> server: fill each member of the client message, encode, load with the library
 		{
